@@ -346,6 +346,16 @@ pub fn cgraph(rng: &mut Rng) -> Vec<u8> {
     if with_base {
         chunks.push((b"BASE", rng.bytes(20)));
     }
+    // git writes OIDF, OIDL, CDAT, …; any order is a valid file, and OIDF last makes its size check matter
+    if rng.chance(1, 3) {
+        let i = rng.below(chunks.len() as u64) as usize;
+        let j = rng.below(chunks.len() as u64) as usize;
+        chunks.swap(i, j);
+    }
+    if rng.chance(1, 6) {
+        let last = chunks.len() - 1;
+        chunks.swap(0, last);
+    }
     let mut v = b"CGPH".to_vec();
     v.extend([1, 1, nchunks, with_base as u8]);
     let mut ofs = (8 + (chunks.len() + 1) * 12) as u64;
